@@ -101,6 +101,23 @@ def run(ctx):
                     violation(ctx, "with the read cache enabled a call returns something else than the reference map (cache transparency)", txt)
     ctx.log("kv (cache on/off): %d lines, %d cases, %d with a difference" % (klines, kcases, kdiffs))
     tcov = {}
+    # readers parked inside their device read while the key is replaced / deleted, cache on: afterwards the cache copy
+    # of the indexed generation must equal its device copy and the key must read as the new value
+    import conc_engine
+    ok2, _ = cargo_build(ctx, ["conc"])
+    if ok2:
+        routs = conc_engine.run_conc(ctx, 4, ["cases=0", "races=%d" % (10 if ctx.tier == "quick" else 150)])
+        nr = 0
+        for o in routs:
+            if "crash" in o:
+                violation(ctx, "conc harness did not finish: " + o["crash"], o["crash"], tag="crash")
+                continue
+            for f in o["fails"]:
+                if f["prop"] == "C16":
+                    nr += 1
+                    if nr <= 2:
+                        violation(ctx, "read cache under a read / replace race: " + f["what"], "# re-run: harness/target/release/conc --seed %d cases=0 races=...\n# %s\n" % (ctx.seed * 1000 + routs.index(o), f["what"]), tag="race")
+        tcov["cache_race_failures"] = nr
     kv_engine.tier_stage(ctx, kouts, tcov)
     kv_engine.inv_stage(ctx, tcov, kouts)
     cov = cov0({
